@@ -7,7 +7,12 @@ from typing import TYPE_CHECKING
 
 import numpy as np
 
-from mici.errors import AdaptationError, NonReversibleStepError
+from mici.errors import (
+    AdaptationError,
+    ConvergenceError,
+    LinAlgError,
+    NonReversibleStepError,
+)
 from mici.solvers import (
     FixedPointSolver,
     ProjectionSolver,
@@ -76,7 +81,13 @@ class Integrator(ABC):
             )
             raise AdaptationError(msg)
         state = state.copy()
-        self._step(state, state.dir * self.step_size)
+        try:
+            self._step(state, state.dir * self.step_size)
+        except (ValueError, LinAlgError) as e:
+            # Make robust to errors in intermediate linear algebra ops outside of the
+            # iterative solvers, for example due to non-finite values
+            msg = f"{type(e)} when computing integrator step ({e})."
+            raise ConvergenceError(msg) from e
         return state
 
     @abstractmethod
